@@ -175,6 +175,8 @@ struct Run {
     if (ok) return false;
     dimension_type n = dim(s);
     { OS o; o << "note okfalse slot " << s; J.line(o.str()); }
+    { OS o; bool thrown = false; try { slot[s]->ascii_dump(o); } catch (...) { thrown = true; }
+      if (thrown || o.str().find("nan") != std::string::npos) { OS l; l << "note nan slot " << s; J.line(l.str()); } }
     { OS o; o << "reset " << s << " " << n; J.line(o.str()); }
     slot[s].reset(new S(n, UNIVERSE));
     return true;
